@@ -268,7 +268,11 @@ package martian
 //@   ensures result0 != nil ==> result0.Body != nil && result0.Header != nil
 //@   at call 0 of RoundTrip before assert[the-request-itself-goes-upstream-nothing-tied-to-this-call; C01] arg0 == req
 
+// gSconn: the connection the session is on - the one recorded in the session (set at a MITM upgrade), else the accepted one
+//@ ghost var gSconn net.Conn
 //@ func (*Proxy).handle
+//@   modifies gSconn
+//@   at call 0 of connection after set gSconn = ite(result != nil, result, conn)
 //@   serves C01 C02 C03 C05 C07 C18
 //@   noframe
 //@   requires proxyReady(p) && ctxIdle(ctx) && sessionIdle(ctx.session) && conn != nil && brw != nil && brw.Writer != nil && brw.Reader != nil
@@ -296,7 +300,7 @@ package martian
 //@   at call 0 of ModifyRequest before assert[secure-session-forces-https] session.secure ==> req.URL.Scheme == "https"
 //@   at call 0 of ModifyRequest before assert[secure-session-request-carries-tls-state] session.secure ==> req.TLS != nil
 //@   at call 0 of ModifyRequest before assert[insecure-session-is-http] !session.secure ==> req.URL.Scheme == "http"
-//@   at call 0 of ModifyRequest before assert[a-session-on-a-tls-connection-is-secure; C05] (typeis(sconn, *tls.Conn) || (typeis(sconn, *trafficshape.Conn) && as(sconn, *trafficshape.Conn).gwrapsTLS)) ==> session.secure
+//@   at call 0 of ModifyRequest before assert[a-session-on-a-tls-connection-is-secure; C05] (typeis(gSconn, *tls.Conn) || (typeis(gSconn, *trafficshape.Conn) && as(gSconn, *trafficshape.Conn).gwrapsTLS)) ==> session.secure
 //@   ensures[secure-flag-is-sticky; C05] old(ctx.session.secure) ==> ctx.session.secure
 //@   at call 0 of ModifyRequest before assert[authority-filled-from-host-header] req.URL.Host != "" || req.Host == ""
 //@   at call 0 of roundTrip before assert[no-upstream-contact-after-a-hijack; C02] !session.hijacked
